@@ -9,6 +9,7 @@ import Sudachi.Model.Normalize
 import Sudachi.Model.Numeric
 import Sudachi.Model.Cli
 import Sudachi.Model.PyGlue
+import Sudachi.Model.PySession
 import Sudachi.Model.Sched
 import Sudachi.Model.Rewrite
 import Sudachi.Model.Subset
@@ -40,7 +41,7 @@ def answer (line : String) : String :=
     | "C13" => Oov.handle op rest
     | "C07" => Normalize.handle op rest
     | "C15" => Numeric.handle op rest
-    | "C19" => if op = "pyglue".toList then PyGlue.handle rest else Cli.handle op rest
+    | "C19" => if op = "pyglue".toList then PyGlue.handle rest else if op = "pysess".toList then PySession.handle rest else Cli.handle op rest
     | "C18" => Sched.handleOp op rest
     | "C14" => Rewrite.handle rest
     | "C11" => Subset.handle op rest
